@@ -72,126 +72,158 @@ theorem public_line_denied (w : ChatWorld) (a r : Nat) (c : Client) (cid : Optio
 
 -- ------------------------------------------------------------------ private chat
 
-/-- A private line: one transaction of type 106 per entry of the chat's member map (distinct ids),
-    carrying the chat id and the formatted text; routed through the client table it reaches exactly
-    the connected members' connections, each once, and nobody else. -/
-theorem private_line_audience (w : ChatWorld) (hw : w.Inv) (hns : w.NoStaleReuse) (a r cid : Nat) (c : Client)
+/-- A private line: one transaction of type 106 per member of the chat (= map entry whose connection
+    still holds its id; distinct ids), carrying the chat id and the formatted text; routed through
+    the client table it reaches exactly the members' connections, each once, and nobody else.  No
+    hypothesis about id reuse (fix 7d7f993). -/
+theorem private_line_audience (w : ChatWorld) (hw : w.Inv) (a r cid : Nat) (c : Client)
     (opts : Option Bytes) (msg : Bytes) (hg : w.reg.get a = some c) (hsend : accessBit c.access 10 = true) :
     let outs := (w.step (.send a r (some cid) opts msg)).2
-    outs = (w.entries cid).map (fun m => mkTran 106 m.1 [⟨114, be32 cid⟩, ⟨101, chatText c.name (isEmote opts) msg⟩]) ∧
-    outs.map (·.to) = w.entryIds cid ∧ (w.entryIds cid).Nodup ∧
-    outs.filterMap (deliver w.reg) = (w.connectedMembers cid).map (·.2) ∧
-    ((w.connectedMembers cid).map (·.2)).Nodup := by
+    outs = (w.members cid).map (fun m => mkTran 106 m.1 [⟨114, be32 cid⟩, ⟨101, chatText c.name (isEmote opts) msg⟩]) ∧
+    outs.map (·.to) = w.memberIds cid ∧ (w.memberIds cid).Nodup ∧
+    outs.filterMap (deliver w.reg) = (w.members cid).map (·.2) ∧
+    ((w.members cid).map (·.2)).Nodup := by
   intro outs
-  have houts : outs = (w.entries cid).map (fun m => mkTran 106 m.1 [⟨114, be32 cid⟩, ⟨101, chatText c.name (isEmote opts) msg⟩]) := by
+  have houts : outs = (w.members cid).map (fun m => mkTran 106 m.1 [⟨114, be32 cid⟩, ⟨101, chatText c.name (isEmote opts) msg⟩]) := by
     show (w.step (.send a r (some cid) opts msg)).2 = _
     simp only [ChatWorld.step, hg, stepSend, hsend, Bool.not_true, Bool.false_eq_true, if_false]
-  refine ⟨houts, ?_, (hw.entries_sorted cid).nodup_keys, ?_, w.connectedMembers_nodup hw cid⟩
+  refine ⟨houts, ?_, (w.members_sorted hw cid).nodup_keys, ?_, w.members_nodup_conns hw cid⟩
   · rw [houts, List.map_map]; rfl
-  · rw [houts]; exact w.members_delivery hns cid _ (fun _ => rfl)
+  · rw [houts]; exact w.members_delivery cid _ (fun _ => rfl)
 
-/-- A subject change is announced (type 119, chat id + new subject) to the connected members, each once. -/
-theorem subject_audience (w : ChatWorld) (hw : w.Inv) (hns : w.NoStaleReuse) (a r cid : Nat) (c : Client) (s : Bytes)
+/-- Who the members are, in terms of connections: `k` is a member's connection iff the map has an
+    entry `(i, k)` and the client table currently gives id `i` to connection `k`. -/
+theorem member_iff (w : ChatWorld) (cid : Nat) (m : Nat × Nat) :
+    m ∈ w.members cid ↔ m ∈ w.entries cid ∧ (w.reg.get m.1).map (·.conn) = some m.2 := by
+  unfold ChatWorld.members ChatWorld.isConnected
+  simp [List.mem_filter]
+
+/-- A subject change is announced (type 119, chat id + new subject) to the members, each once. -/
+theorem subject_audience (w : ChatWorld) (hw : w.Inv) (a r cid : Nat) (c : Client) (s : Bytes)
     (hg : w.reg.get a = some c) :
     let w' := (w.step (.setSubject a r cid s)).1
     let outs := (w.step (.setSubject a r cid s)).2
-    w'.entries cid = w.entries cid ∧
-    outs = (w.entries cid).map (fun m => mkTran 119 m.1 [⟨114, be32 cid⟩, ⟨115, s⟩]) ∧
-    outs.filterMap (deliver w.reg) = (w.connectedMembers cid).map (·.2) ∧
-    ((w.connectedMembers cid).map (·.2)).Nodup := by
+    w'.members cid = w.members cid ∧
+    outs = (w.members cid).map (fun m => mkTran 119 m.1 [⟨114, be32 cid⟩, ⟨115, s⟩]) ∧
+    outs.filterMap (deliver w.reg) = (w.members cid).map (·.2) ∧
+    ((w.members cid).map (·.2)).Nodup := by
   intro w' outs
-  have hm : w'.entries cid = w.entries cid := by
-    show (w.step (.setSubject a r cid s)).1.entries cid = _
-    simp only [ChatWorld.step, hg, stepSetSubject]
+  have he : (w.modifyChat cid fun ch => { ch with subject := s }).entries cid = w.entries cid := by
     rw [ChatWorld.entries_modifyChat_same w cid (fun ch => { ch with subject := s })]
     unfold ChatWorld.entries
     cases w.chat cid <;> rfl
-  have houts : outs = (w.entries cid).map (fun m => mkTran 119 m.1 [⟨114, be32 cid⟩, ⟨115, s⟩]) := by
+  have hmm : (w.modifyChat cid fun ch => { ch with subject := s }).members cid = w.members cid := by
+    show ((w.modifyChat cid fun ch => { ch with subject := s }).entries cid).filter w.isConnected = _
+    rw [he]; rfl
+  have hm : w'.members cid = w.members cid := by
+    show (w.step (.setSubject a r cid s)).1.members cid = _
+    simp only [ChatWorld.step, hg, stepSetSubject]
+    exact hmm
+  have houts : outs = (w.members cid).map (fun m => mkTran 119 m.1 [⟨114, be32 cid⟩, ⟨115, s⟩]) := by
     show (w.step (.setSubject a r cid s)).2 = _
     simp only [ChatWorld.step, hg, stepSetSubject]
-    rw [ChatWorld.entries_modifyChat_same w cid (fun ch => { ch with subject := s })]
-    unfold ChatWorld.entries
-    cases w.chat cid <;> rfl
-  refine ⟨hm, houts, ?_, w.connectedMembers_nodup hw cid⟩
-  rw [houts]; exact w.members_delivery hns cid _ (fun _ => rfl)
+    rw [hmm]
+  refine ⟨hm, houts, ?_, w.members_nodup_conns hw cid⟩
+  rw [houts]; exact w.members_delivery cid _ (fun _ => rfl)
 
-/-- A join is announced (type 117) to the connected members the chat had *before* the join, each
-    once; the joiner gets the one reply; afterwards the joiner is a member. -/
-theorem join_notice_audience (w : ChatWorld) (hw : w.Inv) (hns : w.NoStaleReuse) (a r cid : Nat) (c : Client)
+/-- A join is announced (type 117) to the members the chat had *before* the join, each once; the
+    joiner gets the one reply. -/
+theorem join_notice_audience (w : ChatWorld) (hw : w.Inv) (a r cid : Nat) (c : Client)
     (hg : w.reg.get a = some c) :
     let outs := (w.step (.join a r cid)).2
-    ∃ reply, outs = (w.entries cid).map (fun m => mkTran 117 m.1 ([⟨114, be32 cid⟩] ++ whoFieldsFull c)) ++ [reply] ∧
+    ∃ reply, outs = (w.members cid).map (fun m => mkTran 117 m.1 ([⟨114, be32 cid⟩] ++ whoFieldsFull c)) ++ [reply] ∧
       reply.isReply = true ∧ reply.to = a ∧ reply.reqId = r ∧
-      ((w.entries cid).map (fun m => mkTran 117 m.1 ([⟨114, be32 cid⟩] ++ whoFieldsFull c))).filterMap (deliver w.reg)
-        = (w.connectedMembers cid).map (·.2) ∧
-      ((w.connectedMembers cid).map (·.2)).Nodup := by
+      ((w.members cid).map (fun m => mkTran 117 m.1 ([⟨114, be32 cid⟩] ++ whoFieldsFull c))).filterMap (deliver w.reg)
+        = (w.members cid).map (·.2) ∧
+      ((w.members cid).map (·.2)).Nodup := by
   intro outs
   have hid := (Registry.get_some hg).2
-  have houts : ∃ fs, outs = (w.entries cid).map (fun m => mkTran 117 m.1 ([⟨114, be32 cid⟩] ++ whoFieldsFull c)) ++ [mkReply c r fs] := by
+  have houts : ∃ fs, outs = (w.members cid).map (fun m => mkTran 117 m.1 ([⟨114, be32 cid⟩] ++ whoFieldsFull c)) ++ [mkReply c r fs] := by
     show ∃ fs, (w.step (.join a r cid)).2 = _ ++ [mkReply c r fs]
     simp only [ChatWorld.step, hg, stepJoin]
     exact ⟨_, rfl⟩
   obtain ⟨fs, houts⟩ := houts
-  exact ⟨mkReply c r fs, houts, rfl, hid, rfl, w.members_delivery hns cid _ (fun _ => rfl), w.connectedMembers_nodup hw cid⟩
+  exact ⟨mkReply c r fs, houts, rfl, hid, rfl, w.members_delivery cid _ (fun _ => rfl), w.members_nodup_conns hw cid⟩
 
-/-- A leave removes the leaver first and is then announced (type 118) to the remaining connected
-    members, each once — not to the leaver. -/
-theorem leave_notice_audience (w : ChatWorld) (hw : w.Inv) (hns : w.NoStaleReuse) (a r cid : Nat) (c : Client)
+/-- After a join by a connected user of an existing chat, that user's connection is a member. -/
+theorem join_makes_member (w : ChatWorld) (a r cid : Nat) (c : Client) (ch : PrivChat)
+    (hg : w.reg.get a = some c) (hch : w.chat cid = some ch) :
+    (c.id, c.conn) ∈ (w.step (.join a r cid)).1.members cid := by
+  simp only [ChatWorld.step, hg, stepJoin]
+  show (c.id, c.conn) ∈ ((w.modifyChat cid fun ch => { ch with members := memInsert (c.id, c.conn) ch.members }).entries cid).filter w.isConnected
+  rw [ChatWorld.entries_modifyChat_same w cid (fun ch => { ch with members := memInsert (c.id, c.conn) ch.members }), hch]
+  refine List.mem_filter.mpr ⟨mem_memInsert.mpr (Or.inl rfl), ?_⟩
+  have hid := (Registry.get_some hg).2
+  simp [ChatWorld.isConnected, hid, hg]
+
+/-- A leave removes the leaver first and is then announced (type 118) to the remaining members, each
+    once — not to the leaver. -/
+theorem leave_notice_audience (w : ChatWorld) (hw : w.Inv) (a r cid : Nat) (c : Client)
     (hg : w.reg.get a = some c) :
     let w' := (w.step (.leave a r cid)).1
     let outs := (w.step (.leave a r cid)).2
-    outs = (w'.entries cid).map (fun m => mkTran 118 m.1 [⟨114, be32 cid⟩, ⟨103, be16 c.id⟩]) ∧
-    a ∉ w'.entryIds cid ∧ (∀ m, m ∈ w'.entries cid ↔ m ∈ w.entries cid ∧ m.1 ≠ a) ∧
-    outs.filterMap (deliver w'.reg) = (w'.connectedMembers cid).map (·.2) ∧
-    ((w'.connectedMembers cid).map (·.2)).Nodup := by
+    outs = (w'.members cid).map (fun m => mkTran 118 m.1 [⟨114, be32 cid⟩, ⟨103, be16 c.id⟩]) ∧
+    a ∉ w'.entryIds cid ∧ (∀ m, m ∈ w'.members cid ↔ m ∈ w.members cid ∧ m.1 ≠ a) ∧
+    outs.filterMap (deliver w'.reg) = (w'.members cid).map (·.2) ∧
+    ((w'.members cid).map (·.2)).Nodup := by
   intro w' outs
   have hid := (Registry.get_some hg).2
   have hw' : w'.Inv := ChatWorld.step_inv hw _
-  have hmem : ∀ m, m ∈ w'.entries cid ↔ m ∈ w.entries cid ∧ m.1 ≠ a := by
+  have hent : ∀ m, m ∈ (w.modifyChat cid fun ch => { ch with members := memDelete c.id ch.members }).entries cid ↔
+      m ∈ w.entries cid ∧ m.1 ≠ a := by
     intro m
-    show m ∈ (w.step (.leave a r cid)).1.entries cid ↔ _
-    simp only [ChatWorld.step, hg, stepLeave]
     rw [ChatWorld.entries_modifyChat_same w cid (fun ch => { ch with members := memDelete c.id ch.members })]
     unfold ChatWorld.entries
     cases w.chat cid with
     | none => simp
     | some ch => simp only [mem_memDelete, hid]
-  have hns' : w'.NoStaleReuse := by
-    intro ch' hch' m hm x hx hxid
-    have hch'' : ch' ∈ (w.modifyChat cid fun ch => { ch with members := memDelete c.id ch.members }).chats := by
-      have : w'.chats = (w.modifyChat cid fun ch => { ch with members := memDelete c.id ch.members }).chats := by
-        show (w.step (.leave a r cid)).1.chats = _
-        simp only [ChatWorld.step, hg, stepLeave]
-      rw [← this]; exact hch'
-    have hx' : x ∈ w.reg.clients := by
-      have : w'.reg = w.reg := by
-        show (w.step (.leave a r cid)).1.reg = _
-        simp only [ChatWorld.step, hg, stepLeave, ChatWorld.modifyChat]
-      rw [← this]; exact hx
-    obtain ⟨ch, hch, rfl⟩ := List.mem_map.mp hch''
-    split at hm
-    · exact hns ch hch m (mem_memDelete.mp hm).1 x hx' hxid
-    · exact hns ch hch m hm x hx' hxid
-  have houts : outs = (w'.entries cid).map (fun m => mkTran 118 m.1 [⟨114, be32 cid⟩, ⟨103, be16 c.id⟩]) := by
-    show (w.step (.leave a r cid)).2 = ((w.step (.leave a r cid)).1.entries cid).map _
+  have hmem : ∀ m, m ∈ w'.members cid ↔ m ∈ w.members cid ∧ m.1 ≠ a := by
+    intro m
+    show m ∈ (w.step (.leave a r cid)).1.members cid ↔ _
     simp only [ChatWorld.step, hg, stepLeave]
-  refine ⟨houts, (w.leave_removes a r cid c hg).1, hmem, ?_, w'.connectedMembers_nodup hw' cid⟩
-  rw [houts]; exact w'.members_delivery hns' cid _ (fun _ => rfl)
+    show m ∈ ((w.modifyChat cid fun ch => { ch with members := memDelete c.id ch.members }).entries cid).filter w.isConnected ↔
+      m ∈ (w.entries cid).filter w.isConnected ∧ m.1 ≠ a
+    rw [List.mem_filter, List.mem_filter, hent m]
+    constructor
+    · rintro ⟨⟨h1, h2⟩, h3⟩; exact ⟨⟨h1, h3⟩, h2⟩
+    · rintro ⟨⟨h1, h3⟩, h2⟩; exact ⟨⟨h1, h2⟩, h3⟩
+  have houts : outs = (w'.members cid).map (fun m => mkTran 118 m.1 [⟨114, be32 cid⟩, ⟨103, be16 c.id⟩]) := by
+    show (w.step (.leave a r cid)).2 = ((w.step (.leave a r cid)).1.members cid).map _
+    simp only [ChatWorld.step, hg, stepLeave]
+  refine ⟨houts, (w.leave_removes a r cid c hg).1, hmem, ?_, w'.members_nodup_conns hw' cid⟩
+  rw [houts]; exact w'.members_delivery cid _ (fun _ => rfl)
 
 /-- A declined invitation is announced (type 106, "<name> declined invitation to chat") to the
-    connected members, each once; the member map is unchanged (the decliner is not added). -/
-theorem decline_notice_audience (w : ChatWorld) (hw : w.Inv) (hns : w.NoStaleReuse) (a r cid : Nat) (c : Client)
+    members, each once; the map is unchanged (the decliner is not added). -/
+theorem decline_notice_audience (w : ChatWorld) (hw : w.Inv) (a r cid : Nat) (c : Client)
     (hg : w.reg.get a = some c) :
     (w.step (.decline a r cid)).1 = w ∧
-    (w.step (.decline a r cid)).2 = (w.entries cid).map (fun m =>
+    (w.step (.decline a r cid)).2 = (w.members cid).map (fun m =>
       mkTran 106 m.1 [⟨114, be32 cid⟩, ⟨101, c.name ++ str " declined invitation to chat"⟩]) ∧
-    (w.step (.decline a r cid)).2.filterMap (deliver w.reg) = (w.connectedMembers cid).map (·.2) ∧
-    ((w.connectedMembers cid).map (·.2)).Nodup := by
-  have houts : (w.step (.decline a r cid)).2 = (w.entries cid).map (fun m =>
+    (w.step (.decline a r cid)).2.filterMap (deliver w.reg) = (w.members cid).map (·.2) ∧
+    ((w.members cid).map (·.2)).Nodup := by
+  have houts : (w.step (.decline a r cid)).2 = (w.members cid).map (fun m =>
       mkTran 106 m.1 [⟨114, be32 cid⟩, ⟨101, c.name ++ str " declined invitation to chat"⟩]) := by
     simp only [ChatWorld.step, hg, stepDecline]
-  refine ⟨by simp only [ChatWorld.step, hg, stepDecline], houts, ?_, w.connectedMembers_nodup hw cid⟩
-  rw [houts]; exact w.members_delivery hns cid _ (fun _ => rfl)
+  refine ⟨by simp only [ChatWorld.step, hg, stepDecline], houts, ?_, w.members_nodup_conns hw cid⟩
+  rw [houts]; exact w.members_delivery cid _ (fun _ => rfl)
+
+/-- A user who disconnected is no longer a member, although its entry stays in the map. -/
+theorem disconnected_is_no_member (w : ChatWorld) (hw : w.Inv) (a cid : Nat) (c : Client) (hg : w.reg.get a = some c) :
+    ∀ m ∈ (w.step (.disconnect a)).1.members cid, m.1 ≠ a := by
+  intro m hm heq
+  have hcm := Registry.get_some hg
+  simp only [ChatWorld.step, hg, stepDisconnect] at hm
+  have hc : ChatWorld.isConnected { w with reg := w.reg.delete c.id, gone := c :: w.gone } m = true := (List.mem_filter.mp hm).2
+  unfold ChatWorld.isConnected at hc
+  simp only at hc
+  cases hgd : (w.reg.delete c.id).get m.1 with
+  | none => simp [hgd] at hc
+  | some d =>
+    have hd := Registry.get_some hgd
+    have := (List.mem_filter.mp hd.1).2
+    simp only [bne_iff_ne, ne_eq] at this
+    exact this (by rw [hd.2, heq, hcm.2])
 
 -- ------------------------------------------------------------------ text
 
@@ -237,7 +269,7 @@ theorem nonmember_is_silent (w : ChatWorld) (i cid : Nat) (hcid : cid < 42949672
     · intro heq
       have := w.traffic_to_members e (hwf e (by simp)) cid hcid o ho ht
       rw [heq] at this
-      exact hnot this
+      exact hnot (w.memberIds_subset cid this)
     · exact ih (w.step e).1 (w.nonmember_preserved e i cid hnot (hno e (by simp)))
         (fun e' he' => hwf e' (by simp [he'])) (fun e' he' => hno e' (by simp [he'])) os hos' o ho ht
 
@@ -265,6 +297,83 @@ theorem decliner_is_silent (w : ChatWorld) (i r cid : Nat) (hcid : cid < 4294967
     (by intro e he; rcases List.mem_cons.mp he with rfl | he
         · rfl
         · exact hno e he)
+
+/-- Connection level, and the strongest form: a connection `k` (holding id `i`) that has no entry in
+    the map of chat `cid` is reached by none of that chat's traffic, through any continuation in which
+    id `i` does not join (or create) the chat — whatever ids are reissued meanwhile, and also while an
+    entry for id `i` made by an *earlier* holder of that id is still in the map. -/
+theorem unjoined_connection_is_silent (w : ChatWorld) (hw : w.Inv) (k i cid : Nat) (hcid : cid < 4294967296)
+    (hout : w.Outside k i cid) (es : List ChatEv) (hwf : ∀ e ∈ es, e.WF) (hno : ∀ e ∈ es, e.joins i cid = false) :
+    ∀ p ∈ w.trace es, ∀ o ∈ p.2, o.chatTraffic cid = true → deliver p.1 o ≠ some k := by
+  induction es generalizing w with
+  | nil => intro p hp; cases hp
+  | cons e es ih =>
+    intro p hp o ho ht
+    have htr : w.trace (e :: es) = (w.reg, (w.step e).2) :: (w.step e).1.trace es := rfl
+    rw [htr] at hp
+    rcases List.mem_cons.mp hp with rfl | hp'
+    · exact hout.not_reached e (hwf e (by simp)) hcid o ho ht
+    · exact ih (w.step e).1 (ChatWorld.step_inv hw e) (hout.step hw e (hno e (by simp)))
+        (fun e' he' => hwf e' (by simp [he'])) (fun e' he' => hno e' (by simp [he'])) p hp' o ho ht
+
+/-- A newcomer — whatever id it is handed, even one a departed member of some chat used to hold — is
+    outside every chat: after its login it has no entry anywhere. -/
+theorem newcomer_is_outside (w : ChatWorld) (hw : w.Inv) (he : w.EntOK) (l an ac nm ic : Bytes) (r' : Registry) (c : Client)
+    (ha : w.reg.add (newClient l an ac nm ic) = some (r', c)) (cid : Nat) :
+    (w.step (.login l an ac nm ic)).1.Outside c.conn c.id cid := by
+  obtain ⟨hinv', _, _, _, hconn, _, _, hser, hmem⟩ := Registry.add_spec hw.reg ha
+  have hw1 : (w.step (.login l an ac nm ic)).1 = { w with reg := r' } := by
+    simp only [ChatWorld.step, stepLogin, ha]
+  rw [hw1]
+  refine ⟨?_, ?_, by show c.conn < r'.serial; omega⟩
+  · intro m hm hk
+    have := (he.entries (w := w) (cid := cid) hm).1
+    omega
+  · intro x hx hxc
+    have hc : c ∈ r'.clients := (hmem c).mpr (Or.inl rfl)
+    rw [eq_of_nodup_map hinv'.connsNodup hx hc hxc]
+
+/-- After `leave` by a connected user its connection has no entry in that chat any more. -/
+theorem leaver_is_outside (w : ChatWorld) (hw : w.Inv) (he : w.EntOK) (a r cid : Nat) (c : Client)
+    (hg : w.reg.get a = some c) : (w.step (.leave a r cid)).1.Outside c.conn a cid := by
+  have hc := Registry.get_some hg
+  have hrem := (w.leave_removes a r cid c hg).1
+  have he' := ChatWorld.step_entOK hw he (.leave a r cid)
+  have hreg : (w.step (.leave a r cid)).1.reg = w.reg := by
+    simp only [ChatWorld.step, hg, stepLeave, ChatWorld.modifyChat]
+  refine ⟨?_, ?_, by rw [hreg]; exact hw.reg.conns c hc.1⟩
+  · intro m hm hk
+    have h2 := (he'.entries hm).2 c (by rw [hreg]; exact hc.1) hk.symm
+    exact hrem (List.mem_map.mpr ⟨m, hm, by rw [← h2, hc.2]⟩)
+  · intro x hx hxc
+    rw [hreg] at hx
+    rw [eq_of_nodup_map hw.reg.connsNodup hx hc.1 hxc, hc.2]
+
+/-- `EntOK` holds in every reachable state. -/
+theorem reachable_entOK (es : List ChatEv) : (ChatWorld.init.after es).EntOK :=
+  ChatWorld.after_entOK ChatWorld.Inv.init ChatWorld.EntOK.init es
+
+-- the behaviour BEFORE fix 7d7f993, kept as a witness: bob (id 2, connection 1) joined chat 99 and
+-- disconnected; the id space wrapped and id 2 was handed to a newcomer (connection 7) who never joined.
+private def staleWorld : ChatWorld :=
+  { reg := ⟨65538, 8, [⟨1, 0, [], [], [0, 0x70, 0, 0, 0, 0, 0, 0], [0x61], [0, 0], 0, [], true⟩,
+                       ⟨2, 7, [], [], [0, 0x70, 0, 0, 0, 0, 0, 0], [0x6e], [0, 0], 0, [], true⟩]⟩,
+    gone := [⟨2, 1, [], [], [0, 0x70, 0, 0, 0, 0, 0, 0], [0x62], [0, 0], 0, [], true⟩],
+    chats := [⟨99, [], [(1, 0), (2, 1)]⟩] }
+
+/-- One transaction per *map entry* (what `Members()` returned before the fix) reaches the newcomer's
+    connection 7, which has no entry in the chat; one per *member* (after the fix) reaches connection 0
+    only.  The state satisfies the invariants of reachable states. -/
+theorem stale_entry_reached_newcomer_before_fix :
+    staleWorld.reg.Inv ∧ staleWorld.EntOK ∧ ¬ staleWorld.NoStaleReuse ∧
+    ((staleWorld.entries 99).map fun m => mkTran 106 m.1 []).filterMap (deliver staleWorld.reg) = [0, 7] ∧
+    (staleWorld.step (.send 1 5 (some 99) none [0x68])).2.filterMap (deliver staleWorld.reg) = [0] := by
+  refine ⟨⟨by unfold SortedIds; decide, by decide, by decide, by decide⟩, by unfold ChatWorld.EntOK; decide, ?_,
+    by decide +kernel, by decide +kernel⟩
+  intro h
+  have := h ⟨99, [], [(1, 0), (2, 1)]⟩ (by decide) (2, 1) (by decide)
+    ⟨2, 7, [], [], [0, 0x70, 0, 0, 0, 0, 0, 0], [0x6e], [0, 0], 0, [], true⟩ (by decide) rfl
+  cases this
 
 -- ------------------------------------------------------------------ replies (used by C14 as well)
 
